@@ -92,6 +92,10 @@ def run_case(sc, idx, keys, env, plan=None, ext_sigint_after=None, timeout=40, c
         t_sig = time.time()
         try:
             p.send_signal(signal.SIGINT)
+            if env.get("VERIF_SECOND_SIGINT_MS"):
+                # an impatient second Ctrl-C while the first is being handled
+                time.sleep(int(env["VERIF_SECOND_SIGINT_MS"]) / 1000.0)
+                p.send_signal(signal.SIGINT)
         except ProcessLookupError:
             pass
         try:
@@ -339,6 +343,9 @@ def run(pid, tier, seed):
             wall = max(run_case(sc, 98000 + len(jobs), keys, {})["wall"], 0.004)
             for i in range(sweep):
                 jobs.append((keys, {}, None, wall * (i + rng.random()) / sweep, "sigint:external"))
+                if i % 3 == 0:
+                    jobs.append((keys, {"VERIF_SECOND_SIGINT_MS": str(rng.choice([0, 1, 5, 30]))}, None, wall * (i + rng.random()) / sweep,
+                                 "sigint:external-twice"))
 
         # (e) the reader of standard output goes away (`s4 ... | head`): every print fails from then on, main
         #     disconnects the channels one by one and leaves without waiting for the workers; a worker held right
@@ -449,7 +456,7 @@ def run(pid, tier, seed):
                "exhaustive": False}
         cov.update(rep.coverage)
         rep.coverage = cov
-        rep.assumptions = ["SIGINT delivered at most once per run", "process exit kills all other threads at once (no destructors)",
+        rep.assumptions = ["SIGINT delivered once per run (twice, milliseconds apart, in the external sweep)", "process exit kills all other threads at once (no destructors)",
                            "promptness bound %.0fs on millisecond workloads" % PROMPT_BOUND_S,
                            "only journal/evtx sources use temp files (text/fixedstruct containers are streamed)"]
     return rep.finish()
